@@ -53,6 +53,20 @@ func add(rootGoitPath, path string, index *store.Index) error {
 	return nil
 }
 
+// indexPath names a path the way the staging area does: relative to the current directory, with
+// slashes, whichever spelling the argument uses (an absolute path, a path through the parent directory)
+func indexPath(arg string) string {
+	cleaned := filepath.Clean(arg)
+	if abs, err := filepath.Abs(arg); err == nil {
+		if curPath, err := os.Getwd(); err == nil {
+			if rel, err := filepath.Rel(curPath, abs); err == nil {
+				cleaned = rel
+			}
+		}
+	}
+	return strings.ReplaceAll(cleaned, `\`, "/")
+}
+
 // addCmd represents the add command
 var addCmd = &cobra.Command{
 	Use:   "add",
@@ -75,8 +89,7 @@ var addCmd = &cobra.Command{
 			if _, err := os.Stat(filepath.Clean(arg)); err != nil {
 				// If the file does not exist but is registered in the index, delete it from the index
 				// but not delete here, just check it
-				cleanedArg := filepath.Clean(arg)
-				cleanedArg = strings.ReplaceAll(cleanedArg, `\`, "/")
+				cleanedArg := indexPath(arg)
 				_, _, isEntryFound := client.Idx.GetEntry([]byte(cleanedArg))
 				if !isEntryFound {
 					return fmt.Errorf(`path "%s" did not match any files`, arg)
@@ -86,8 +99,7 @@ var addCmd = &cobra.Command{
 
 		for _, arg := range args {
 			// check if the arg is the target of excluding path
-			cleanedArg := filepath.Clean(arg)
-			cleanedArg = strings.ReplaceAll(cleanedArg, `\`, "/")
+			cleanedArg := indexPath(arg)
 			if client.Ignore.IsIncluded(cleanedArg, client.Idx) {
 				continue
 			}
